@@ -43,7 +43,13 @@ class ProgramVerifier:
         self.reg = Registry([])
         self.V = Vocab()
         self.ctx_chunked = self.compute_ctx()
-        self.progress = {name: self.consumes_when_remaining(d) for name, d in self.decls.items()}
+        # progress summaries claimed per class: "always" or only "chunked" (when entered in chunked mode)
+        self.progress = {}
+        for name, d in self.decls.items():
+            if self.consumes_when_remaining(d):
+                self.progress[name] = "always"
+            elif self.consumes_when_remaining(d, True):
+                self.progress[name] = "chunked"
 
     # ---- static facts from the XML
     def compute_ctx(self):
@@ -67,18 +73,33 @@ class ProgramVerifier:
             walk(d, False)
         return out
 
-    def consumes_when_remaining(self, decl):
-        """does deserializing this object consume at least one byte whenever data remains?"""
+    def consumes_when_remaining(self, decl, ctx=None):
+        """progress summary CLAIMED for this object's deserializer (and then proved as its obligation
+        summary[progress]): whenever data remains on entry, the reader measure strictly decreases.
+        Claimed when the object executes an own <break> (the chunk start advances) or when its first
+        instruction reads at least one byte in the ENTRY mode - an own chunked section entered from
+        unchunked mode may hide the remaining data behind a break, so nothing is claimed then"""
+        ctx = self.ctx_chunked.get(decl.name, False) if ctx is None else ctx
+        if any(ins.tag == "break" for ins in X.flatten_own(decl.body)):
+            return True
         for ins in X.flatten_own(decl.body):
             if ins.tag == "chunked":
-                continue
+                if ctx:
+                    continue
+                return False
             if ins.tag in ("field", "length", "dummy"):
                 if ins.tag == "field" and is_str_type(ins.type) and ins.length is not None and ins.length.isdigit() and int(ins.length) == 0:
                     continue
+                if ins.tag == "dummy":
+                    return False            # a dummy is read only when nothing else was
                 t = X.resolve_type(self.spec, ins.type, ins.length if is_str_type(ins.type) else None)
                 if t.kind == "struct":
-                    return self.consumes_when_remaining(t.struct)
+                    return self.consumes_when_remaining(t.struct, ctx)
+                if ins.tag == "field" and is_str_type(ins.type) and ins.length is not None and not ins.length.isdigit():
+                    return False            # length taken from data: may be zero
                 return True
+            if ins.tag == "array" and ins.length is None and not ins.optional:
+                return False
             return False
         return False
 
@@ -490,7 +511,8 @@ def _verify_deserialize(self, decl):
                 ro = ex2.obj(fr2.env["reader"])
                 out = [("state", ro.fields["st"] == ITER(entry, nn, i)),
                        ("elements", cur_list(ex2, fr2) == ELEMS(entry, nn, i)),
-                       ("mode", V.CH(ro.fields["st"]) == V.CH(entry))]
+                       ("mode", V.CH(ro.fields["st"]) == V.CH(entry)),
+                       ("measure", V.lex_le(ro.fields["st"], entry))]
                 if not is_for:
                     j = z3.Int("j!w")
                     out.append(("earlier-nonempty", z3.ForAll([j], z3.Implies(z3.And(0 <= j, j < i),
@@ -508,7 +530,11 @@ def _verify_deserialize(self, decl):
                     cell["k"] = cell["k"] + 1
             spec = {"z3inv": inv, "on_head": on_head, "on_step": on_step}
             if not is_for:
-                spec["variant"] = lambda ex2, fr2: V.TOT(ex2.obj(fr2.env["reader"]).fields["st"])
+                # termination measure: the lexicographic pair (data beyond the chunk start, data beyond the
+                # position) - next_chunk advances the chunk start (and may move the position BACKWARDS),
+                # reads advance the position only
+                spec["variant"] = lambda ex2, fr2: (V.CSR(ex2.obj(fr2.env["reader"]).fields["st"]),
+                                                    V.TOT(ex2.obj(fr2.env["reader"]).fields["st"]))
             return spec
         ex.loop_hook = hook
         fr = Frame(fi, fi.module, {"reader": r})
@@ -551,6 +577,15 @@ def _verify_deserialize(self, decl):
         bs = o.fields.get("_byte_size")
         ex.oblige("byte-size", bs == V.POS(final) - V.POS(s0) if bs is not None and is_int(bs) else z3.BoolVal(False),
                   "normal", {"why": "byte_size differs from the number of bytes consumed", "property": "C03"})
+        # the summary every caller of this deserializer assumes (GenExec.nested_deserialize)
+        fs = robj.fields["st"]
+        ex.oblige("summary", z3.And(V.lex_le(fs, s0), V.state_ok(ex, fs)),
+                  "measure", {"why": "deserialize does not keep the reader measure (chunk start, position) from moving back",
+                              "property": "C03"})
+        if self.progress.get(decl.name):
+            pre = V.REM(s0) > 0 if self.progress[decl.name] == "always" else z3.And(V.CH(s0), V.REM(s0) > 0)
+            ex.oblige("summary", z3.Implies(pre, V.lex_lt(fs, s0)), "progress",
+                      {"why": "deserialize consumes nothing although data remains", "property": "C03"})
         ex.oblige("final-state", robj.fields["st"] == V.setch(ex, final, ch0), "normal",
                   {"why": "reader state after deserialize differs from the prescribed one", "property": "C03"})
     ex.explore(run)
